@@ -320,6 +320,14 @@ class C07:
                 own_end = max(own_end, 0.05 + o["t"] + dur)
             t_rel = max(t, own_end) + t_max + 0.3
             w.run_until(w.t0 + t_rel)
+            # (the traffic may make the stack transmit later than the scripted end - e.g. a hold CTS postpones its data by
+            # up to 1.05 s: the timeout counts from the last frame on the bus)
+            for _ in range(20):
+                last = (w.bus.log[-1].t - w.t0) if w.bus.log else 0.0
+                if last + t_max + 0.3 <= t_rel + 1e-9:
+                    break
+                t_rel = last + t_max + 0.3
+                w.run_until(w.t0 + t_rel)
             tables_rel = s.peek_sessions()
             t_end = max(t + 1.0 + 3.5, t_rel)
             w.run_until(w.t0 + t_end)
